@@ -54,15 +54,13 @@ is rooted at the start symbol, is a derivation tree of the *user's* productions 
 terminals (a childless node = an empty production), contains no helper (suffix) symbol, and its
 leaves are exactly the non-skipped tokens (names after synonyms/keywords, values), `$END$` removed.
 
-Hypotheses besides `construct inp = .ok P`:
-* `hrhs`   — no right-hand side names a `__` symbol.  The constructor asserts this only for the keys
-             of `productions` and for terminals; see the example at the end of this file for what
-             the real parser does otherwise.
+Hypotheses besides `construct inp = .ok P` (which includes the constructor's assertions: no `__`
+name among the keys, the right-hand side symbols and the terminals):
 * `hstart` — the start symbol is a key of `productions` (the constructor only checks that it is a key
              of the factorised dictionary, which also contains the helper symbols).
 * `hEnd`   — no lexeme is named `$END$` (synonyms/keywords do not map to the reserved name). -/
 theorem parse_valid (inp : CtorIn) (P : Parser) (hP : construct inp = .ok P)
-    (hrhs : NoDunderRhs inp.prods) (hstart : inp.start ∈ inp.prods.map (·.1))
+    (hstart : inp.start ∈ inp.prods.map (·.1))
     (raw : List (List Char × List Char))
     (hEnd : ∀ tok ∈ (P.tokens raw).dropLast, tok.name ≠ endSym)
     (fuel : Nat) (t : Tree Sym) (h : P.parse raw fuel = .ok t) :
@@ -70,8 +68,8 @@ theorem parse_valid (inp : CtorIn) (P : Parser) (hP : construct inp = .ok P)
       t.yield = (P.tokens raw).dropLast := by
   have hB := construct_built hP
   have h1 := verifyPart1_ok hB.hV
-  obtain ⟨hD, _⟩ := factRelD_of_built hB hrhs
-  exact parse_sound_of_rel hB (factRel_of_D h1 hD) (start_user_of_built hB hrhs hstart) raw hEnd fuel t h
+  obtain ⟨hD, _⟩ := factRelD_of_built hB
+  exact parse_sound_of_rel hB (factRel_of_D h1 hD) (start_user_of_built hB hstart) raw hEnd fuel t h
 
 /-! Non-vacuity: the nested-common-prefix grammar `A → x y z | x y | x` (start `A`), both
 `smart_factorization` values, input `x y`: the constructor succeeds and `parse` returns a tree
@@ -99,13 +97,12 @@ example : parsesTo (exInp false) exRaw ["x".toList, "y".toList] = true := by dec
 example : (match construct (exInp false) with
     | .ok P => decide (P.suffix.length = 2)
     | .error _ => false) = true := by decide +kernel
-example : NoDunderRhs (exInp true).prods := by
-  unfold NoDunderRhs; decide
 example : (exInp true).start ∈ (exInp true).prods.map (·.1) := by decide
 
-/-! The hypothesis `hrhs` cannot be dropped — and the real parser behaves like the model here: for
-`E → A b | A c | E__S00 ; A → a` the constructor accepts (the name `E__S00` *is* a key after
-factorisation), and `parse("b")` returns the node `E → b`, which is none of the user's productions. -/
+/-! The reserved-name assertion matters: `E → A b | A c | E__S00 ; A → a` mentions the helper symbol
+the factorisation creates for `E`.  Before the repair a1a7d93 the real constructor accepted it and
+`parse("b")` returned the node `E → b`, none of the user's productions (the model without the
+assertion reproduced exactly that).  Now the constructor — and the model — answer `AssertionError`. -/
 def badInp : CtorIn :=
   { groups := ["SPACE".toList, "a".toList, "b".toList, "c".toList], syn := [], kw := [], skip := none,
     start := "E".toList,
@@ -113,6 +110,19 @@ def badInp : CtorIn :=
               ("A".toList, [["a".toList]])],
     smart := true }
 
-example : parsesTo badInp [("b".toList, "b".toList)] ["b".toList] = true := by decide +kernel
+example : (match construct badInp with | .error .assertion => true | _ => false) = true := by decide +kernel
+
+/-! `hstart` cannot be dropped: with `start_symbol_name = "E__S00"` (a key of the factorised
+dictionary, so the constructor accepts) the root of the returned tree is the helper symbol. -/
+def badStart : CtorIn :=
+  { badInp with start := "E__S00".toList,
+                prods := [("E".toList, [["a".toList, "b".toList], ["a".toList, "c".toList]])],
+                smart := false }
+
+example : (match construct badStart with
+    | .ok P => (match P.parse [("b".toList, "b".toList)] 1000 with
+                | .ok t => decide (t.name = parseSym "E__S00".toList) && decide (t.name ∈ P.suffix)
+                | .error _ => false)
+    | .error _ => false) = true := by decide +kernel
 
 end C01
